@@ -18,7 +18,7 @@ LINE = re.compile(r"^(\d+)\s+(\w+)\((.*)$")
 
 
 def strace(args, env, out=None, inject=None, timeout=30):
-    cmd = ["strace", "-f", "-s", "300", "-o", out or "/dev/null"]
+    cmd = ["strace", "-f", "-s", "5000", "-o", out or "/dev/null"]
     if inject:
         cmd += ["-e", "inject=" + inject]
     cmd += args
@@ -111,6 +111,8 @@ def run(tier, seed, replay=None):
 
     # every scenario in the plain layout; the canonical ones also with ld.so.preload being a symbolic link to the real file
     jobs = [(si, "plain") for si in range(len(chosen))] + [(si, "symlink") for si in range(len(chosen)) if chosen[si] in must or tier == "thorough"]
+    # ... and with a path of exactly PATH_MAX - 1 bytes (the name of the temporary, path + ".tmp", no longer fits)
+    jobs += [(si, "path4095") for si in range(len(chosen)) if chosen[si] in must][: (3 if tier == "quick" else 12)]
 
     def scenario(job):
         si, layout = job
@@ -118,15 +120,26 @@ def run(tier, seed, replay=None):
         d = os.path.join(work, "s%d-%s" % (si, layout))
         os.makedirs(d)
         path = os.path.join(d, "ld.so.preload")
+        if layout == "path4095":
+            fdir = d
+            while len(fdir) + len("/ld.so.preload") < 4095:
+                room = 4095 - len(fdir) - len("/ld.so.preload") - 1
+                fdir += "/" + "d" * min(200, room) if room >= 1 else ""
+                if room < 1:
+                    break
+            os.makedirs(fdir, exist_ok=True)
+            path = fdir + "/ld.so.preload"
+        fdir = os.path.dirname(path)
         target = os.path.join(d, "real.preload")
         env = {"SNOOPY_TEST_LD_SO_PRELOAD_PATH": path, "SNOOPY_TEST_LIBSNOOPY_SO_PATH": conc.own, "PATH": "/usr/bin:/bin"}
         old = conc.to_bytes(beh[0]["disk"])
         cmd = beh[1]["c"]
 
         def reset():
-            for f in os.listdir(d):
-                if f != "dry.txt":
-                    os.unlink(os.path.join(d, f))
+            for base_ in {d, fdir}:
+                for f in os.listdir(base_):
+                    if f != "dry.txt" and not os.path.isdir(os.path.join(base_, f)):
+                        os.unlink(os.path.join(base_, f))
             if old is not None:
                 with open(target if layout == "symlink" else path, "wb") as f:
                     f.write(old)
@@ -160,7 +173,7 @@ def run(tier, seed, replay=None):
             reset()
             strace([b["snoopyctl"], cmd], env, inject="%s:signal=SIGKILL:when=%d" % (name, j))
             disk = read_file(path)
-            tmpc = read_file(path + ".tmp")
+            tmpc = read_file(path + ".tmp") if len(path) + 4 < 4096 else None
             done = [e for k, e in evs if k < i]
             tr = head + [{"e": e} for e in done] + [{"e": "Crash", "disk": conc.to_abstract(disk)}]
             window = (done[-1] if done else "start")
@@ -201,6 +214,9 @@ def run(tier, seed, replay=None):
                 runs.append(dict(kind="short", at=L, trace=None, disk=disk, bad=bad, exit=rc3, sig="short-write:%s:%s" % (cmd, "exit0" if rc3 == 0 else "failed"),
                                  what="%s while the file system accepts only %d of %d bytes: exit %d, file holds %r (old %r, new %r)" % (cmd, L, len(new), rc3, disk, old, new)))
         # a stale temporary left by an earlier killed run (longer than the new content) must not leak into the result
+        if layout == "path4095":
+            shutil.rmtree(d, ignore_errors=True)
+            return dict(beh=beh, layout=layout, calls=len(calls), events=[e for _, e in evs], runs=runs)
         reset()
         with open(path + ".tmp", "wb") as f:
             f.write(b"/stale/from/an/earlier/run.so\n" * 40)
@@ -234,7 +250,7 @@ def run(tier, seed, replay=None):
                 if ru["kind"] != "dry" and res["beh"][1]["disk"] != res["beh"][0]["disk"]:
                     nontrivial.add((si, ru["kind"], ru["at"], ru.get("errno")))
                 if ru["bad"]:
-                    rep.violation(ru["sig"] + (":symlink" if res["layout"] == "symlink" else ""), ("[ld.so.preload is a symbolic link] " if res["layout"] == "symlink" else "") + ru["what"],
+                    rep.violation(ru["sig"] + ("" if res["layout"] == "plain" else ":" + res["layout"]), ({"symlink": "[ld.so.preload is a symbolic link] ", "path4095": "[the path of ld.so.preload is 4095 bytes long] "}.get(res["layout"], "")) + ru["what"],
                                   dict(initial=res["beh"][0]["disk"], command=res["beh"][1]["c"], layout=res["layout"],
                                                               injected=dict(kind=ru["kind"], call_index=ru["at"], call=ru.get("call"), errno=ru.get("errno")),
                                                               protocol_events=res["events"]))
